@@ -28,12 +28,18 @@ def leg_dict(leg):
 
 def compatible(l1, l2):
     """legs can be paired (contracted / added): same charges have same dims"""
+    if l1.is_fused() or l2.is_fused():
+        if l1.hf.tree != l2.hf.tree or l1.hf.op != l2.hf.op:
+            return False
     d1, d2 = leg_dict(l1), leg_dict(l2)
     return all(d2[t] == D for t, D in d1.items() if t in d2)
 
 
 def union_leg(cfg, s, *legs):
     import yastn
+    if any(l.is_fused() for l in legs):
+        # fused legs carry their history: the union is taken by the library itself
+        return yastn.legs_union(*[l if l.s == s else l.conj() for l in legs])
     d = {}
     for l in legs:
         d.update(leg_dict(l))
@@ -64,7 +70,8 @@ class ProgGen:
 
     # ---- values -------------------------------------------------------------------------
     def tensors(self):
-        return [i for i, v in enumerate(self.vals) if isinstance(v, self.yastn.Tensor)]
+        return [i for i, v in enumerate(self.vals) if isinstance(v, self.yastn.Tensor)
+                and all(mf == (1,) for mf in v.mfs) and v.yastn_dtype != "bool"]
 
     def fresh_legs(self, rank):
         legs = []
@@ -86,15 +93,41 @@ class ProgGen:
         self.steps.append(st)
         return len(self.vals) - 1
 
+    def representable(self, r):
+        """can the (real) value be sent to the model: plain tensor, no fusion, integer data"""
+        yastn = self.yastn
+        if not isinstance(r, yastn.Tensor):
+            return False
+        if any(mf != (1,) for mf in r.mfs) or any(hf.tree != (1,) for hf in r.hfs):
+            return False
+        d = r._data
+        return bool(np.all(d.real == np.round(d.real)) and np.all(d.imag == np.round(d.imag)) and np.all(np.abs(d) < 2 ** 40))
+
+    def modelled(self, *ids):
+        return all(self.representable(self.vals[i]) for i in ids)
+
     def _do(self, model, fn, oracle_fn=None, opname="", args=(), malformed=False):
         try:
             r = fn()
             exc = None
         except Exception as e:  # noqa: BLE001 — any rejection is recorded, classified later
             r, exc = None, e
+        if model is not None and not self.modelled(*model.get("a", [])):
+            model = None   # an operand is outside the model (fused legs, float data)
+        if model is None:
+            # operation outside the model: resynchronise the model with the real result where representable
+            self.opaque_steps = getattr(self, "opaque_steps", 0) + 1
+            if exc is None and self.representable(r):
+                model = {"f": "input", "a": [], "tensor": tgen.to_model(r), "resync": opname}
+            else:
+                model = {"f": "opaque", "a": []}
         oracle = None
         if exc is None and oracle_fn is not None:
-            oracle = oracle_fn(r)
+            try:
+                oracle = oracle_fn(r)
+            except Exception as e:  # noqa: BLE001 — the reference could not be built (never an alarm); counted
+                self.oracle_errors = getattr(self, "oracle_errors", [])
+                self.oracle_errors.append(f"{opname}: {type(e).__name__}: {str(e)[:80]}")
         return self._push(model, r, exc, oracle, opname, args, malformed)
 
     # ---- dense helpers (oracle) ----------------------------------------------------------
@@ -116,8 +149,11 @@ class ProgGen:
         return r
 
     def pick(self, max_rank=None, min_rank=0, nondiag=False):
+        if max_rank is None:
+            max_rank = self.max_rank + 1
         ts = [i for i in self.tensors() if min_rank <= self.vals[i].ndim_n <= (max_rank if max_rank is not None else 99)
-              and not (nondiag and self.vals[i].isdiag)]
+              and not (nondiag and self.vals[i].isdiag) and all(mf == (1,) for mf in self.vals[i].mfs)
+              and self.vals[i].yastn_dtype != "bool"]
         if not ts:
             return None
         # prefer recent (deeper) values and values that hold blocks
@@ -182,6 +218,15 @@ class ProgGen:
             else:
                 ia = ia + [0]
         if len(lx) + len(ly) - 2 * len(ia) > self.max_rank + 1:
+            return None
+        dense_out = 1
+        for p in range(len(lx)):
+            if p not in ia:
+                dense_out *= max(1, sum(lx[p].D))
+        for q in range(len(ly)):
+            if q not in ib:
+                dense_out *= max(1, sum(ly[q].D))
+        if dense_out > 60000:
             return None
         model = {"f": "tensordot", "a": [i, j], "axes": [ia, ib], "conj": list(cj)}
 
@@ -487,6 +532,245 @@ class ProgGen:
         return self._do(model, lambda: x.remove_leg(axis=axis), (lambda r: ("dense", np.squeeze(x.to_numpy(), axis), None)) if not mal else None, "remove_leg", (i,), mal)
 
 
+    # ---- operations outside the (current) model: executed on the real code with NumPy / invariant oracles;
+    # ---- the model is resynchronised from the real result where it is representable ------------------
+    def op_ncon(self, mal, einsum=False):
+        rng = self.rng
+        yastn = self.yastn
+        ids = []
+        for _ in range(rng.randint(2, 3)):
+            i = self.pick(min_rank=1, max_rank=4, nondiag=True)
+            if i is None:
+                return None
+            ids.append(i)
+        # tensors may repeat; each occurrence is a separate node
+        ts = [self.vals[i] for i in ids]
+        conjs = [1 if rng.random() < 0.25 else 0 for _ in ts]
+        legs = [t.get_legs(native=True) for t in ts]
+        eff = [[(-l.s if c else l.s) for l in lg] for lg, c in zip(legs, conjs)]
+        labels = [[None] * len(lg) for lg in legs]
+        nxt = 1
+        cand = [(a, p, b, q) for a in range(len(ts)) for b in range(a, len(ts)) for p in range(len(legs[a])) for q in range(len(legs[b]))
+                if (a, p) < (b, q) and eff[a][p] == -eff[b][q] and compatible(legs[a][p], legs[b][q])]
+        rng.shuffle(cand)
+        for a, p, b, q in cand:
+            if labels[a][p] is None and labels[b][q] is None and rng.random() < 0.6 and nxt <= 4:
+                labels[a][p] = labels[b][q] = nxt
+                nxt += 1
+        free = [(a, p) for a in range(len(ts)) for p in range(len(legs[a])) if labels[a][p] is None]
+        if len(free) > self.max_rank:
+            return None
+        rng.shuffle(free)
+        for k, (a, p) in enumerate(free):
+            labels[a][p] = -k
+        order = list(range(1, nxt)); rng.shuffle(order)
+        use_order = rng.random() < 0.5 and nxt > 1
+
+        def oracle(r):
+            # dense einsum over union legs of every contracted pair
+            L = [dict() for _ in ts]
+            for lab in range(1, nxt):
+                occ = [(a, p) for a in range(len(ts)) for p in range(len(legs[a])) if labels[a][p] == lab]
+                (a, p), (b, q) = occ
+                L[a][p] = union_leg(self.cfg, legs[a][p].s, legs[a][p], legs[b][q])
+                L[b][q] = union_leg(self.cfg, legs[b][q].s, legs[a][p], legs[b][q])
+            ds = []
+            for t, c, lg in zip(ts, conjs, L):
+                d = t.to_numpy(legs=lg)
+                ds.append(d.conj() if c else d)
+            letters = "abcdefghijklmnopqrstuvwxyz"
+            sub = []
+            for lb in labels:
+                sub.append("".join(letters[x + 10] if x > 0 else letters[-x] for x in lb))
+            out = "".join(letters[k] for k in range(len(free)))
+            ref = np.einsum(",".join(sub) + "->" + out, *ds)
+            lc = {k: (legs[a][p].conj() if conjs[a] else legs[a][p]) for k, (a, p) in enumerate(free)}
+            return ("dense", ref, lc)
+        if einsum:
+            letters = "abcdefghijklmnopqrstuvwxyz"
+            sub = []
+            for lb, c in zip(labels, conjs):
+                sub.append("".join(letters[x + 10] if x > 0 else letters[-x] for x in lb) + ("*" if c else ""))
+            out = "".join(letters[k] for k in range(len(free)))
+            spec = ",".join(sub) + "->" + out
+            ordr = "".join(letters[x + 10] for x in order) if use_order else None
+            return self._do(None, lambda: yastn.einsum(spec, *ts, order=ordr), oracle, "einsum", tuple(ids))
+        return self._do(None, lambda: yastn.ncon(ts, labels, conjs=conjs, order=order if use_order else None), oracle, "ncon", tuple(ids))
+
+    def op_einsum(self, mal):
+        return self.op_ncon(mal, einsum=True)
+
+    def op_diag(self, mal):
+        """2-leg tensor with square diagonal blocks -> diag -> (maybe) back"""
+        rng = self.rng
+        yastn = self.yastn
+        l = rng.choice(self.pool)
+        if rng.random() < 0.5:
+            l = l.conj()
+        i = self.new_input(legs=[l, l.conj()], n=self.cfg.sym.zero())
+        x = self.vals[i]
+        if rng.random() < 0.4:
+            x2 = x.transpose((1, 0))  # kept lazy
+            j = self._do({"f": "transpose", "a": [i], "axes": [1, 0]}, lambda: x2, None, "transpose_lazy", (i,))
+            x, i = self.vals[j], j
+        def oracle(r):
+            d = x.to_numpy()
+            return ("dense", np.diag(np.diag(d)), dict(enumerate(x.get_legs(native=True))))
+        j = self._do(None, lambda: x.diag(), oracle, "diag_to_diag", (i,))
+        y = self.vals[j]
+        if isinstance(y, yastn.Tensor) and rng.random() < 0.7:
+            return self._do(None, lambda: y.diag(), lambda r: ("dense", y.to_numpy(), dict(enumerate(y.get_legs(native=True)))), "diag_to_full", (j,))
+        return j
+
+    def _diag_for(self, leg):
+        """a diagonal tensor living on (leg.conj(), leg) so that it can act on `leg`"""
+        yastn = self.yastn
+        d = yastn.eye(self.cfg, legs=[leg.conj(), leg], isdiag=True)
+        d = tgen.int_fill(self.rng, d, self.cplx, lo=-2, hi=3)
+        return d
+
+    def op_broadcast(self, mal):
+        rng = self.rng
+        i = self.pick(min_rank=1, nondiag=True)
+        if i is None:
+            return None
+        x = self.vals[i]
+        if any(hf.tree != (1,) for hf in x.hfs) or any(mf != (1,) for mf in x.mfs):
+            return None
+        ax = rng.randrange(x.ndim_n)
+        lx = x.get_legs(native=True)
+        base = [p for p in self.pool if compatible(p, lx[ax])]
+        leg = union_leg(self.cfg, lx[ax].s, lx[ax], rng.choice(base)) if base and rng.random() < 0.5 else lx[ax]
+        if len(leg.t) == 0:
+            return None
+        d = self._diag_for(leg)
+        if rng.random() < 0.3 and len(d.struct.t) > 1:   # drop a sector of the diagonal operand
+            keep = d.struct.t[1:]
+            d2 = self.yastn.Tensor(self.cfg, s=d.struct.s, isdiag=True, dtype=d.yastn_dtype)
+            for t, D in zip(d.struct.t, d.struct.D):
+                if t in keep:
+                    d2.set_block(ts=t[:len(t) // 2], Ds=D[0], val=d[t])
+            d = d2
+        k = self._push({"f": "opaque", "a": []}, d, opname="diag_input")
+
+        def oracle(r):
+            L = {ax: union_leg(self.cfg, lx[ax].s, lx[ax], d.get_legs(1))}
+            dx = x.to_numpy(legs=L)
+            dd = np.diag(d.to_numpy(legs={0: L[ax].conj(), 1: L[ax]}))
+            shp = [1] * dx.ndim; shp[ax] = -1
+            ref = dx * dd.reshape(shp)
+            Lr = {k: l for k, l in enumerate(lx)}
+            Lr[ax] = L[ax]
+            return ("dense", ref, Lr)
+        which = rng.choice(["broadcast", "dot_left", "dot_right"])
+        if which == "broadcast":
+            return self._do(None, lambda: d.broadcast(x, axes=ax), oracle, "broadcast", (k, i))
+        if which == "dot_left":   # diag @ x over x's axis `ax`: result leg moves to front
+            def oracle2(r):
+                kind, ref, Lr = oracle(r)
+                order = [ax] + [k for k in range(len(lx)) if k != ax]
+                return ("dense", np.moveaxis(ref, ax, 0), {k: Lr[p] for k, p in enumerate(order)})
+            return self._do(None, lambda: self.yastn.tensordot(d, x, axes=(1, ax)), oracle2, "tensordot_diag", (k, i))
+        def oracle3(r):
+            kind, ref, Lr = oracle(r)
+            order = [k for k in range(len(lx)) if k != ax] + [ax]
+            return ("dense", np.moveaxis(ref, ax, -1), {k: Lr[p] for k, p in enumerate(order)})
+        return self._do(None, lambda: self.yastn.tensordot(x, d.transpose((1, 0)), axes=(ax, 1)), oracle3, "tensordot_diag", (i, k))
+
+    def op_apply_mask(self, mal):
+        rng = self.rng
+        i = self.pick(min_rank=1, nondiag=True)
+        if i is None:
+            return None
+        x = self.vals[i]
+        if any(hf.tree != (1,) for hf in x.hfs) or any(mf != (1,) for mf in x.mfs):
+            return None
+        ax = rng.randrange(x.ndim_n)
+        lx = x.get_legs(native=True)
+        leg = lx[ax]
+        if len(leg.t) == 0:
+            return None
+        m = self.yastn.eye(self.cfg, legs=[leg.conj(), leg], isdiag=True)
+        m._data = np.array([rng.random() < 0.6 for _ in range(m.size)], dtype=bool)
+        k = self._push({"f": "opaque", "a": []}, m, opname="mask_input")
+
+        def oracle(r):
+            dx = x.to_numpy()
+            keep = np.asarray(m.to_numpy().diagonal()).astype(bool)
+            ref = np.compress(keep, dx, axis=ax)
+            return ("dense-compact", ref, ax, keep, leg)
+        return self._do(None, lambda: m.apply_mask(x, axes=ax), oracle, "apply_mask", (k, i))
+
+    def op_fuse(self, mal, mode=None):
+        rng = self.rng
+        i = self.pick(min_rank=2, max_rank=5, nondiag=True)
+        if i is None:
+            return None
+        x = self.vals[i]
+        nd = x.ndim
+        perm = list(range(nd)); rng.shuffle(perm)
+        # split perm into groups
+        groups, k = [], 0
+        while k < nd:
+            g = rng.randint(1, min(3, nd - k))
+            groups.append(tuple(perm[k:k + g])); k += g
+        axes = tuple(g if len(g) > 1 else g[0] for g in groups)
+        mode = mode or rng.choice(["hard", "meta", None])
+        kw = {} if mode is None else {"mode": mode}
+        j = self._do(None, lambda: x.fuse_legs(axes=axes, **kw), None, f"fuse_{mode}", (i,))
+        y = self.vals[j]
+        if not isinstance(y, self.yastn.Tensor):
+            return j
+        # unfuse everything that was fused: must restore the transposed original exactly
+        fused_axes = tuple(k for k, g in enumerate(groups) if len(g) > 1)
+        flat = [a for g in groups for a in g]
+
+        def oracle(r):
+            return ("dense-exact-struct", x.transpose(axes=tuple(flat)))
+        if rng.random() < 0.7 and fused_axes:
+            return self._do(None, lambda: y.unfuse_legs(axes=fused_axes), oracle, "unfuse", (j,))
+        return j
+
+    def op_svd(self, mal, which="svd"):
+        rng = self.rng
+        yastn = self.yastn
+        i = self.pick(min_rank=2, max_rank=5, nondiag=True)
+        if i is None:
+            return None
+        x = self.vals[i]
+        nd = x.ndim
+        perm = list(range(nd)); rng.shuffle(perm)
+        k = rng.randint(1, nd - 1)
+        axes = (tuple(perm[:k]), tuple(perm[k:]))
+        if which == "svd":
+            kw = dict(sU=rng.choice([1, -1]), nU=rng.random() < 0.5)
+            fn = lambda: yastn.linalg.svd(x, axes=axes, **kw)
+        else:
+            kw = dict(sQ=rng.choice([1, -1]))
+            fn = lambda: yastn.linalg.qr(x, axes=axes, **kw)
+        try:
+            res = fn()
+            exc = None
+        except Exception as e:  # noqa: BLE001
+            res, exc = None, e
+        if exc is not None:
+            return self._push({"f": "opaque", "a": []}, None, exc, None, which, (i,))
+        out = None
+        for part, r in zip("USV" if which == "svd" else "QR", res):
+            out = self._push({"f": "opaque", "a": []}, r, None, ("charge-split", which, part, i, kw), f"{which}_{part}", (i,))
+        return out
+
+    def op_qr(self, mal):
+        return self.op_svd(mal, which="qr")
+
+    def op_remove_zero_blocks(self, mal):
+        i = self.pick()
+        if i is None:
+            return None
+        x = self.vals[i]
+        return self._do(None, lambda: x.remove_zero_blocks(), lambda r: ("dense-values", x), "remove_zero_blocks", (i,))
+
+
 # ----------------------------------------------------------------------------------------
 # comparison helpers
 # ----------------------------------------------------------------------------------------
@@ -515,6 +799,56 @@ def check_oracle(gen, st):
         ref = st.oracle[1]
         got = complex(r)
         return None if got == ref else f"number {got} != dense reference {ref}"
+    if kind == "dense-compact":   # apply_mask: values equal the compressed array; masked-out sectors vanish
+        _, ref, ax, keep, leg = st.oracle
+        got = r.to_numpy()
+        if got.size == 0 and ref.size == 0:
+            return None
+        if len(r.struct.t) == 0:
+            return None if not np.any(ref) else "result has no blocks but the NumPy reference is non-zero"
+        x = gen.vals[st.args[1]]
+        x_legs = x.get_legs(native=True)
+        L = {k: l for k, l in enumerate(x_legs) if k != ax}
+        try:
+            got = r.to_numpy(legs=L)
+        except Exception as e:  # noqa: BLE001
+            return f"to_numpy on operand legs failed: {type(e).__name__}: {e}"
+        lr = r.get_legs(native=True)[ax]
+        o, sel, gone = 0, [], []
+        for t, D in zip(leg.t, leg.D):
+            kk = keep[o:o + D]
+            kept = [o + p for p in range(D) if kk[p]]
+            if t in lr.t:
+                if lr[t] != len(kept):
+                    return f"masked leg keeps {lr[t]} indices in sector {t}, mask has {len(kept)}"
+                sel += kept
+            else:
+                gone += kept
+            o += D
+        dx = x.to_numpy()
+        ref2 = np.take(dx, sel, axis=ax)
+        if got.shape != ref2.shape or not np.array_equal(got, ref2):
+            return "apply_mask result differs from the masked dense operand"
+        if gone and np.any(np.take(dx, gone, axis=ax)):
+            return "apply_mask dropped a sector that holds kept non-zero elements"
+        return None
+    if kind == "dense-exact-struct":
+        ref_t = st.oracle[1]
+        a, b = r, ref_t
+        if a.get_legs(native=True) != b.get_legs(native=True):
+            return f"unfuse(fuse(x)) has legs {a.get_legs(native=True)} but transposed x has {b.get_legs(native=True)}"
+        if a.n != b.n:
+            return "unfuse(fuse(x)) changed the total charge"
+        return None if np.array_equal(a.to_numpy(), b.to_numpy()) else "unfuse(fuse(x)) differs from the transposed original"
+    if kind == "dense-values":
+        x = st.oracle[1]
+        L = dict(enumerate(x.get_legs(native=True)))
+        try:
+            return None if np.array_equal(r.to_numpy(legs=L), x.to_numpy()) else "remove_zero_blocks changed dense values"
+        except Exception as e:  # noqa: BLE001
+            return f"to_numpy failed: {type(e).__name__}: {e}"
+    if kind == "charge-split":
+        return None  # judged by the well-formedness / charge oracles of C02 and by C04
     _, ref, legs = st.oracle
     try:
         got = r.to_numpy(legs=legs) if legs else r.to_numpy()
